@@ -115,7 +115,7 @@ def run(ctx: Ctx):
     for i in range(0, len(cases), 40000):
         judge(ctx, s, cases[i : i + 40000])
     s.finish()
-    n = 60000 if quick else 600000
+    n = ctx.size(60000, 600000)
     for name, comps in (("layers-random-plain", gen.PLAIN), ("layers-random-adversarial", gen.IDENT_ADVERSARIAL)):
         s = Stream(ctx, name)
         rng = ctx.rng(name)
